@@ -1,4 +1,5 @@
 pub mod conv;
+pub mod fmtspecs;
 pub mod gen;
 pub mod ival;
 pub mod layout;
